@@ -3,7 +3,7 @@
    library's derivable_pt_lim). *)
 From Coq Require Import Reals Lra.
 From Coquelicot Require Import Coquelicot.
-From Inferno Require Import Base.Num Base.NumR Gen.NeuronDynamics C03.KernelProofs.
+From Inferno Require Import Base.Num Base.NumR Gen.NeuronDynamics C03.Neuron C03.NeuronSpec C03.IntegrationProofs.
 Open Scope R_scope.
 Local Notation exp := Rtrigo_def.exp.
 
@@ -17,7 +17,7 @@ Proof.
   - intros s. apply is_derive_Reals. subst u.
     apply (is_derive_ext (fun s => (v - rest - Rm * I) * exp (- s / tau) + rest + Rm * I)).
     { intros t. symmetry. apply integration_linear_formula. }
-    fold (vil I v s tau rest Rm). rewrite integration_linear_formula.
+    rewrite integration_linear_formula.
     auto_derive; [exact Logic.I|]. rn_simpl. unfold Rdiv. generalize (exp (- s * / tau)). intros e.
     field. exact Ht.
 Qed.
